@@ -85,6 +85,8 @@ type crashSend struct {
 	Key     string   `json:"key,omitempty"` // the message a lease operation addresses (payload text or publish id)
 	Status  int      `json:"status"`
 	Done    bool     `json:"done"`
+	// Spent: the lease this operation presents was acked (204) just before: it must be refused
+	Spent bool `json:"spent,omitempty"`
 }
 
 type crashStore interface {
@@ -252,7 +254,27 @@ func cmdCrashChild(args []string) error {
 				}
 			case 0:
 				s.Kind = "ack"
-				do(pull, "POST", "http://ex/pull/one/ack", fmt.Sprintf(`{"lease_id":%q}`, l.id), map[string]string{"Authorization": "Bearer t"})
+				rrAck := do(pull, "POST", "http://ex/pull/one/ack", fmt.Sprintf(`{"lease_id":%q}`, l.id), map[string]string{"Authorization": "Bearer t"})
+				if rrAck.Code == 204 && r.chance(40) {
+					// the consumer (or a second one holding the same lease id) then reports the opposite in the batch form: the
+					// lease is spent, so this must not be answered as done — an answer "succeeded" would be an acknowledged nack /
+					// dead-letter that no restart can honour
+					s = crashSend{I: 100000 + i, Route: "/one", Key: l.key, Targets: []string{"pull"}, Kind: "nack", Spent: true}
+					body := fmt.Sprintf(`{"lease_ids":[%q],"delay":"1h"}`, l.id)
+					if r.chance(40) {
+						s.Kind = "dead"
+						body = fmt.Sprintf(`{"lease_ids":[%q],"dead":true,"reason":"verif"}`, l.id)
+					}
+					rr := do(pull, "POST", "http://ex/pull/one/nack", body, map[string]string{"Authorization": "Bearer t"})
+					var br struct {
+						Succeeded int `json:"succeeded"`
+					}
+					_ = json.Unmarshal(rr.Body.Bytes(), &br)
+					if br.Succeeded == 1 {
+						s.Status = 204 // acknowledged for this lease
+						say("DONE", s)
+					}
+				}
 			case 1:
 				s.Kind = "nack"
 				do(pull, "POST", "http://ex/pull/one/nack", fmt.Sprintf(`{"lease_id":%q,"delay":"1h"}`, l.id), map[string]string{"Authorization": "Bearer t"})
